@@ -20,7 +20,13 @@ import (
 	"verif/sim"
 )
 
-const root = "/verif"
+// root is /verif; VERIF_ROOT points a development copy of the harness at itself.
+var root = func() string {
+	if v := os.Getenv("VERIF_ROOT"); v != "" {
+		return v
+	}
+	return "/verif"
+}()
 
 // ---- worker protocol (mirrors worker/worker_test.go) ----
 
